@@ -27,6 +27,20 @@ CHECKS = {
              note=E1_NOTE, ref="§7 E1, §8 C09, App. A.5"),
 }
 
+E2_NOTE = ("Trusted base: client-boundary timestamps from one monotonic clock; unique (writer,seq) metas; sync-point hooks that only sleep/park (20 ms logical timeout) "
+           "and count coverage; watchdog expiry is inconclusive, never a violation. Held on the rounds and interleavings observed.")
+CHECKS.update({
+ "C02": dict(engine="E2", technique="runtime monitoring: multi-writer stress with seeded jitter and directed parking at append sync points; offline history checker (snapshot monotonicity, last-id exactly-once, follower order)",
+             text="Exploration of schedules: many short rounds on fresh stores with 2-8 writer threads, pollers, snapshot readers and followers; the schedule is moved by plain parallelism, seeded delays and directed parking between id assignment / commit / broadcast. Oracles look only at what clients were returned.",
+             note=E2_NOTE, ref="§7 E2, §8 C02, App. A.6"),
+ "C03": dict(engine="E2", technique="runtime monitoring: follow/append interleaving explorer with sync-point perturbation; exactly-once / order / threshold-position checker over the received sequence (A.7)",
+             text="Exploration over history sizes around the 100-slot buffer, start positions, scopes and appenders racing the subscribe/scan/hand-off steps (jitter and directed parking); P/U/Q sets are computed from client-side call/return stamps.",
+             note=E2_NOTE, ref="§7 E2, §8 C03, App. A.7"),
+ "C11": dict(engine="E2", technique="runtime monitoring: read-option sweep and slow-consumer runs; sequence / closure / gap checker over received items (A.8)",
+             text="Exploration of limit x history-size x follow mode x tail x last-id x scope, plus consumers that stall past the 1024+100 frame buffers during replay or afterwards; safety-shaped oracles (exact first n, nothing after the n-th, closes, never past an undelivered frame).",
+             note=E2_NOTE, ref="§7 E2, §8 C11, App. A.8"),
+})
+
 NOT_YET = {
 }
 
@@ -63,6 +77,7 @@ def main():
         },
         "engines": [
             {"name": "E1", "path": "harness/src/e1.rs", "serves_properties": ["C01", "C05", "C07", "C08", "C09", "C20"], "kind_free_text": "store-history explorer vs reference model (child-process sessions)"},
+            {"name": "E2", "path": "harness/src/e2.rs", "serves_properties": ["C02", "C03", "C11"], "kind_free_text": "in-process concurrency stress with sync-point schedule perturbation; history checkers at the client boundary"},
         ],
         "checks": checks,
         "not_applicable": na,
